@@ -233,7 +233,7 @@ pub fn gen_cfg(r: &mut Rng, t: &Target) -> DumpCfg {
 }
 
 pub fn generate(prop: &str, seed: u64, tier: &str, out: &mut dyn std::io::Write) {
-    let (nsmall, nbig, per) = if tier == "thorough" { (150, 30, 4) } else { (40, 4, 3) };
+    let (nsmall, nbig, per) = if tier == "thorough" { (200, 30, 4) } else { (70, 6, 3) };
     generate_counts(prop, seed, nsmall, nbig, per, "t", out);
     // the register-fetch fallback: a dumper that may not use PTRACE_GETREGSET (an old kernel, a seccomp policy that only
     // admits the classic requests) — in a worker process, since the filter cannot be removed again
@@ -265,10 +265,23 @@ pub fn generate_counts(prop: &str, seed: u64, nsmall: u64, nbig: u64, per: usize
                     cfg.pre_dumps = r3.range(1, 2) as usize;
                 }
             }
-            // sometimes the blamed thread is already traced by somebody else: it cannot be attached
-            let mut tracer = None;
+            // sometimes the blamed thread is traced by somebody else by the time of the recorded request (after any
+            // earlier requests on the same writer): it cannot be attached
+            let mut traced = false;
             if r.chance(1, 8) && t.threads.iter().any(|x| x.tid == cfg.blamed) && t.threads.len() > 1 {
-                tracer = spawn_tracer(cfg.blamed);
+                cfg.trace_tid = Some(cfg.blamed);
+                traced = true;
+            }
+            // earlier requests on the writer may have been aborted part-way by a destination failure
+            {
+                let mut r5 = Rng::for_case(seed, 193, i * 16 + k as u64);
+                if cfg.pre_dumps > 0 && r5.chance(1, 2) {
+                    cfg.pre_fail_call = Some(r5.range(3, 12) as usize);
+                }
+                // a traced blamed thread is more telling on a reused writer
+                if traced && cfg.pre_dumps == 0 && r5.chance(1, 2) {
+                    cfg.pre_dumps = 1;
+                }
             }
             let c0len = *r.pick(&[0usize, 0, 5, 4096]);
             let c0 = r.bytes(c0len);
@@ -302,11 +315,7 @@ pub fn generate_counts(prop: &str, seed: u64, nsmall: u64, nbig: u64, per: usize
             if let Some(mut fc) = fail_client {
                 fc.set_enabled(minidump_writer::FailSpotName::CpuInfoFileOpen, false);
             }
-            writeln!(out, "{}{}", o.line, if tracer.is_some() { " traced=1" } else { "" }).unwrap();
-            if let Some(mut c) = tracer {
-                let _ = c.kill();
-                let _ = c.wait();
-            }
+            writeln!(out, "{}{}", o.line, if traced { " traced=1" } else { "" }).unwrap();
         }
     }
 }
